@@ -28,6 +28,7 @@ pat_byte(uint32_t b, uint64_t i)
         return (uint8_t) (splitmix64(((uint64_t) b << 32) | (i >> 3)) >> (8 * (i & 7)));
 }
 void pat_fill(uint8_t *dst, uint32_t b, uint64_t off, uint64_t len);
+uint8_t *huge_window(uint32_t b); /* 4 GiB + window of virtual memory repeating pattern buffer b (period 2^20) */
 
 /* ---------- guarded buffers ---------- */
 enum { PL_END = 0, PL_START = 1, PL_MID = 2 };
